@@ -24,6 +24,7 @@ type Store struct {
 
 	// Atomic CAS'ed int64/uint64's must be at the top for 32-bit compatibility.
 	size       int64                   // Atomic protected; file size or next write position.
+	rootsEnd   int64                   // Atomic protected; end position of the last roots; <= size.
 	nodeAllocs uint64                  // Atomic protected; total node allocation stats.
 	coll       *map[string]*Collection // Copy-on-write map[string]*Collection.
 	file       StoreFile               // When nil, we're memory-only or no persistence.
@@ -280,6 +281,10 @@ func (s *Store) FlushRevert() error {
 			cold.closeCollection()
 		}
 	}
+	// There may be data after the last roots (from a Collection.Write()
+	// or from a Flush() that failed), so start at the end of the last
+	// roots, which are the ones to be reverted.
+	atomic.StoreInt64(&s.size, atomic.LoadInt64(&s.rootsEnd))
 	if atomic.LoadInt64(&s.size) > rootsLen {
 		atomic.AddInt64(&s.size, -1)
 	}
@@ -287,6 +292,7 @@ func (s *Store) FlushRevert() error {
 	if err != nil {
 		return err
 	}
+	atomic.StoreInt64(&s.rootsEnd, atomic.LoadInt64(&s.size))
 	if s.readOnly {
 		return nil
 	}
@@ -304,6 +310,7 @@ func (s *Store) Snapshot() (snapshot *Store) {
 		coll:      &coll,
 		file:      s.file,
 		size:      atomic.LoadInt64(&s.size),
+		rootsEnd:  atomic.LoadInt64(&s.rootsEnd),
 		readOnly:  true,
 		callbacks: s.callbacks,
 	}
@@ -436,6 +443,7 @@ func (s *Store) writeRoots(rnls map[string]*rootNodeLoc) error {
 		return err
 	}
 	atomic.StoreInt64(&s.size, offset+int64(length))
+	atomic.StoreInt64(&s.rootsEnd, offset+int64(length))
 	return nil
 }
 
@@ -448,7 +456,11 @@ func (s *Store) readRoots() error {
 	if s.size <= 0 {
 		return nil
 	}
-	return s.readRootsScan(false)
+	if err := s.readRootsScan(false); err != nil {
+		return err
+	}
+	atomic.StoreInt64(&s.rootsEnd, atomic.LoadInt64(&s.size))
+	return nil
 }
 
 func (s *Store) readRootsScan(defaultToEmpty bool) (err error) {
